@@ -32,7 +32,7 @@ RULE = ("Scenario = (user-object kind x how tensors are held x which require gra
         "[method, pre-built PureFunction, sibling, multi-sibling, callable object wrapping the actor] x history of 1-4 operations on the same objects "
         "[forward of a functional+method; backward / graph-recording backward / second backward of any live result; "
         "each optionally inside enable_debug/disable_debug wrappers and inside 0-3 harness-opened nested "
-        "substitutions with identical or fresh tensors]). One fault-free reference execution counts the N entries "
+        "substitutions with identical, fresh or aliased (one tensor for several parameters) tensors]). One fault-free reference execution counts the N entries "
         "into the user's callees; then one faulted execution per crash point k (quick: k in {1,2,3,N-1,N} + 8 "
         "drawn; thorough: every k in 1..N) with InjectedFault(Exception) or InjectedAbort(BaseException). "
         "A case is non-trivial iff the fault fired while a substitution was installed (object slots differ from "
@@ -95,7 +95,8 @@ def draw_scenario(cs, cfg):
         op["debug"] = [None, "enable", "disable", "enable>disable", "disable>enable", "set_true"][
             cs.weighted([6, 5, 1, 1, 1, 1], "dbg")]
         depth = cs.weighted([5, 3, 2, 1], "nest")
-        op["nest"] = [["identical", "clones", "clones_nograd"][cs.weighted([2, 5, 1], "nestkind")] for _ in range(depth)]
+        op["nest"] = [["identical", "clones", "clones_nograd", "aliased"][cs.weighted([2, 5, 1, 2], "nestkind")]
+                      for _ in range(depth)]
         if op["op"] == "BWD" and not sc["allow_ctx_mismatch"]:
             op["nest"] = ["identical" for _ in op["nest"]]
         subst = any(k != "identical" for k in op["nest"])
@@ -663,6 +664,17 @@ def execute(sc, plan, reference=None, collect=None):
             new = list(cur)
         elif kind == "clones":
             new = [p.detach().clone().requires_grad_() for p in cur]
+        elif kind == "aliased":
+            # one fresh tensor handed over for every parameter of the same shape (aliased substitution)
+            byshape = {}
+            new = []
+            for p in cur:
+                key = (tuple(p.shape), p.dtype)
+                if key not in byshape:
+                    byshape[key] = p.detach().clone().requires_grad_()
+                new.append(byshape[key])
+            if len(byshape) < len(cur):
+                SIM.count("reach.aliased_substitution")
         else:
             new = [p.detach().clone() for p in cur]
         befores = [Snapshot(a) for a in env.actors]
@@ -843,6 +855,7 @@ def execute(sc, plan, reference=None, collect=None):
     mon.uninstall()
     set_debug_mode(False)
     info["N"] = SIM.seq
+    info["counters"] = dict(SIM.counters)
     info["monitor_pushes"] = mon.pushes
     info["monitor_maxdepth"] = mon.maxdepth
     info["monitor_skipped"] = mon.skipped
@@ -910,6 +923,8 @@ def run(cs, cfg):
     if ref["info"]["monitor_skipped"]:
         cnt("monitor_skipped")
     cnt("reach.monitor_maxdepth>=2", 1 if ref["info"]["monitor_maxdepth"] >= 2 else 0)
+    for k_, v_ in ref["info"].get("counters", {}).items():
+        cnt(k_, v_)
     cnt("reach.monitor_maxdepth>=3", 1 if ref["info"]["monitor_maxdepth"] >= 3 else 0)
     for oi, v in enumerate(ref["values"]):
         if v["raised"] is not None:
